@@ -1,6 +1,8 @@
 """C13 — class-balanced, semi-supervised and weighted samplers compose epochs as promised."""
+import json
 from collections import Counter
 
+from . import pgroup as PG
 from . import samplers as S
 from .common import C, Nat, Opt, Raw, Rec, coq
 
@@ -36,6 +38,13 @@ TRUSTED = [
     "set_epoch, back to an earlier epoch): model = set_epoch assigns self.epoch, __iter__ assigns nothing "
     "(semi_object_history and C12's *_object_history); tied to the code by one real object of a random rank per case, "
     "replayed in Coq with draw / random_ oracles keyed by the generator seeds",
+    "default rank / world_size arguments (SemiSampler, ClassBalancedSampler, WeightedSampler): model = explicit argument, "
+    "else the process group's value AT CONSTRUCTION, else (0, 1) (C12.Model.resolve_rank_world, C13.Model.semi_built), "
+    "independent of earlier queries; tied to the code by PROCESS-GROUP HISTORIES (harness/pgroup.py; see C12's trusted "
+    "base: processes forked from a pristine server, 'sim' = torch.distributed's is_available / is_initialized / get_rank "
+    "/ get_world_size simulated in one process, 'gloo' = 2..3 real processes in real gloo groups with file rendezvous): "
+    "every sampler built in a history is compared (stream, len, generator seeds incl. the rank seed, draws) with the "
+    "sampler built with the explicit (rank, world size) in the harness process, and replayed in Coq",
     "runaway guard: a sampler run is abandoned after %g s of process CPU time (ITIMER_VIRTUAL) or %g s wall "
     "(ITIMER_REAL fallback) or %d draws and reported as 'iteration does not return'" % (S.CPU_LIMIT, S.WALL_LIMIT, S.MAX_DRAWS),
     "harness/samplers.py spies (torch.Generator subclass, wrapped randperm/multinomial/Tensor.random_) and rendering",
@@ -58,7 +67,10 @@ RULE = ("cb 35% / semi 40% / weighted 25%; label lists of 2..26 entries (thoroug
         "entries, missing classes and labels >= C; spc None/0/1..13; L,U in 0..4; modes labeled/unlabeled/all/invalid; "
         "W in 1..5, all ranks, epochs None/0..3, seeds 0..999; non-trivial = constructor accepted and a non-empty "
         "stream; distinct by (kind, n, W, epoch, spc|L,U,mode|size, shuffle); every case also drives ONE object of a "
-        "random rank through 2..5 list(sampler) calls (set_epoch(e'), back to e, no set_epoch in between); thorough tier "
+        "random rank through 2..5 list(sampler) calls (set_epoch(e'), back to e, no set_epoch in between); 12% of the cases "
+        "also carry a process-group history of 3..10 steps (init as rank r of W / destroy / is_available off-on / rank "
+        "queries / throwaway samplers / the case's sampler built with default, explicit or mixed rank and world_size), 70% "
+        "simulated in one process, 30% in 2..3 real gloo processes, plus 11 directed schedules per kind; thorough tier "
         "adds a directed family of 12 large layouts (n ~ 500 semi with 2..90 pool wrap-arounds per rank, n ~ 200 "
         "class-balanced with samples_per_class beyond every pool)")
 
@@ -143,7 +155,10 @@ def gen_ops(rng, epoch):
     return ops
 
 
-def gen_case(rng, big=False):
+PG_FRACTION = 0.12     # share of the cases that also carry a process-group history
+
+
+def gen_case(rng, big=False, pg=PG_FRACTION):
     r = rng.random()
     if r < 0.35:
         c = gen_cb(rng, big)
@@ -153,7 +168,24 @@ def gen_case(rng, big=False):
         c = gen_weighted(rng, big)
     c["ops"] = gen_ops(rng, c["epoch"])
     c["ops_rank"] = rng.randrange(c["W"])
+    if rng.random() < pg:
+        c["pg"] = PG.gen_pg(rng, c["kind"], c["epoch"])
     return c
+
+
+def gen_directed_pg(rng):
+    """the plain schedules (build after init; something asked / built before init; destroy and join another group;
+    explicit arguments inside a group) for one small sampler of every kind"""
+    out = []
+    for base in ({"kind": "semi", "classes": [0, -1, 1, -1, -1, 2, 0, -1, 3, -1, -1], "dim": 4, "L": 1, "U": 2,
+                  "mode": rng.choice(["labeled", "unlabeled", "all"]), "seed": rng.randrange(1000), "epoch": 1, "W": 2},
+                 {"kind": "weighted", "n": 9, "weights": [1.0, 2.0, 0.5] * 3, "size": None, "seed": rng.randrange(1000),
+                  "epoch": 1, "W": 2},
+                 {"kind": "cb", "classes": [0, 1, 2, 1, 0, 2, 2], "dim": 3, "spc": None, "shuffle": True,
+                  "seed": rng.randrange(1000), "epoch": 1, "W": 2}):
+        for h in PG.directed(base["kind"], base["epoch"]):
+            out.append({**base, "pg": h})
+    return out
 
 
 def gen_large(rng):
@@ -181,9 +213,10 @@ def gen_large(rng):
 
 
 def gen_cases(rng, tier):
+    head = gen_directed_pg(rng)
     if tier == "quick":
-        return [gen_case(rng) for _ in range(1000)]
-    return [gen_case(rng) for _ in range(4500)] + [gen_case(rng, big=True) for _ in range(1500)] + gen_large(rng)
+        return head + [gen_case(rng) for _ in range(1000)]
+    return head + [gen_case(rng) for _ in range(4500)] + [gen_case(rng, big=True) for _ in range(1500)] + gen_large(rng)
 
 
 def search_cases(rng, tier):
@@ -202,11 +235,17 @@ def search_cases(rng, tier):
     for n in (1, 2, 5):
         for W in (1, 2, 3):
             yield {"kind": "weighted", "n": n, "weights": [1.0] * n, "size": None, "seed": 0, "epoch": 0, "W": W}
+    for c in gen_directed_pg(rng):
+        yield c
     for _ in range(20000):
-        yield gen_case(rng, big=rng.random() < 0.3)
+        yield gen_case(rng, big=rng.random() < 0.3, pg=0.4)
 
 
 def shrink(c):
+    if c.get("pg"):
+        yield {k: v for k, v in c.items() if k != "pg"}
+        for cand in PG.shrink_pg(c["kind"], c["pg"]):
+            yield {**c, "pg": cand}
     if c.get("ops"):
         ops = c["ops"]
         yield {k: v for k, v in c.items() if k not in ("ops", "ops_rank")}
@@ -322,6 +361,9 @@ def run_impl(case):
             obs["fresh"][str(ep)] = {"stream": f["stream"], "result": f["result"]}
     if case["kind"] == "semi":
         obs["swap"] = swap_example()
+    # samplers built with default rank / world_size arguments in processes with a process-group history
+    if case.get("pg"):
+        obs["pg"] = PG.run_pg(case, case["pg"], run_rank)
     return obs
 
 
@@ -386,6 +428,13 @@ def check_blocks(name, pool, picks):
 def oracle(case, obs):
     if "harness_exception" in obs:
         return "harness exception: " + obs["harness_exception"] + obs.get("tb", "")
+    msg = oracle0(case, obs)
+    if msg is None and case.get("pg"):
+        msg = PG.oracle_pg(case, case["pg"], obs.get("pg") or {"error": "history not run (a rank ran away)"})
+    return msg
+
+
+def oracle0(case, obs):
     W, k = case["W"], case["kind"]
     ranks = obs["ranks"]
     exp = expected_result(case)
@@ -638,7 +687,8 @@ def coq_case(case, obs):
         for op, r in zip(case["ops"], obs["hist"]):
             hs.append(C("HSet", int(op[1])) if op[0] == "set" else C("HIter", Raw(coq(coq_rank(r)))))
     hist = (Nat(case.get("ops_rank", 0)), Raw("[" + "; ".join(str(h) for h in hs) + "]"))
-    return coq((coq_cfg(case), [coq_rank(o) for o in obs["ranks"]], S.nats(obs["G"]), hist))
+    pgs = PG.coq_pgs(case["pg"], obs["pg"], coq_rank, S.CODE) if case.get("pg") and obs.get("pg") else []
+    return coq((coq_cfg(case), [coq_rank(o) for o in obs["ranks"]], S.nats(obs["G"]), hist, pgs))
 
 
 def features(case, obs):
@@ -650,6 +700,9 @@ def features(case, obs):
             a[0] == "iter" and b[0] == "iter" for a, b in zip(case["ops"], case["ops"][1:]))
         yield "ops:returns to an earlier epoch=%s" % any(
             eps[i] == eps[j] and any(eps[m] != eps[i] for m in range(i, j)) for i in range(len(eps)) for j in range(i, len(eps)))
+    if case.get("pg") and obs.get("pg"):
+        for f in PG.features_pg(case["pg"], obs["pg"]):
+            yield f
     if obs.get("swap"):
         w = obs["swap"]
         yield ("remark:semi (rank 1, epoch 2) and (rank 2, epoch 1) seed alike (%s / %s) and emit the same stream=%s"
@@ -686,6 +739,8 @@ def features(case, obs):
 
 
 def nontrivial_key(case, obs):
+    if case.get("pg") and obs.get("pg") and any(rec["stream"] for _, _, _, _, rec in PG.builds(case["pg"], obs["pg"])):
+        return ("pg", case["kind"], json.dumps(case["pg"], sort_keys=True))
     if "ranks" not in obs or obs["ranks"][0]["result"] != "ok" or not any(o["stream"] for o in obs["ranks"]):
         return None
     k = case["kind"]
